@@ -439,6 +439,33 @@ def step(cls, name, l, tw, op, hist, ctx):
     return l2, tw2
 
 
+def probe_inplace(cls, short, l, tw, hist, ctx):
+    """Second use of ONE list object: observe it (anything the list caches is now warm), assign new offsets (and lengths) through
+    the column setters in place, observe again. A value remembered from before the edit would show here."""
+    if len(tw) == 0:
+        return
+    try:
+        lc = l.deepcopy()
+    except Exception:
+        return
+    if not observe(cls, short, lc, tw, hist + [("inplace.warm",)], ctx):
+        return
+    ctx.transition()
+    tw2 = [dict(r) for r in tw]
+    try:
+        lc.offset = lc.offset + 0.75
+        for r in tw2:
+            r["offset"] = val(r["offset"] + 0.75)
+        if is_hold(cls):
+            lc.length = lc.length * 2
+            for r in tw2:
+                r["length"] = val(r["length"] * 2)
+    except Exception as e:
+        ctx.check("op.raises", False, site=dict(cls=short, op="inplace", exc=type(e).__name__, empty=False), case=dict(cls=short, history=hist + [("inplace",)]), observed=f"{type(e).__name__}: {e}"[:300], expected="no exception")
+        return
+    observe(cls, short, lc, tw2, hist + [("inplace",)], ctx)
+
+
 def explore(root, tier, ctx):
     name = root["cls"]
     cls = _cls(name)
@@ -468,6 +495,7 @@ def explore(root, tier, ctx):
     ctx.outcome((short, tuple(map(repr, tw0))))
     if not good:
         return
+    probe_inplace(cls, short, l0, tw0, [ctor], ctx)
     ctx.sample(dict(cls=short, history=[ctor], rows=tw0))
     for d in range(1, depth + 1):
         nxt = []
@@ -486,6 +514,8 @@ def explore(root, tier, ctx):
                 ctx.depth(d)
                 h2 = hist + [op]
                 ok = observe(cls, short, l2, tw2, h2, ctx)
+                if ok and d == 1:
+                    probe_inplace(cls, short, l2, tw2, h2, ctx)
                 ctx.outcome((short, tuple(map(repr, tw2))))
                 if ok and d < depth:
                     nxt.append((l2, tw2, h2))
@@ -510,6 +540,9 @@ def replay(case, ctx):
     h = [ctor]
     observe(cls, name, l, tw, h, ctx)
     for op in hist[1:]:
+        if str(op[0]).startswith("inplace"):
+            probe_inplace(cls, name, l, tw, h, ctx)
+            return
         r = step(cls, name, l, tw, op, h, ctx)
         h = h + [op]
         if r is None:
